@@ -524,11 +524,16 @@ package values
 //@ props C01
 //@ panics values.TypeError
 //@ assigns nothing
+// contains on an array: true exactly when some element equals the operand (values.Equal, so
+// across numeric kinds and widths)
 //@ func (values.arrayValue).Contains
-//@ props C01 C09
+//@ props C01 C09 C18
 //@ panics nothing
 //@ requires arg: ev != nil
 //@ assigns nothing
+//@ loop 1 invariant noneSoFar: forall(k, 0, i, !values.Equal(pl_elem(av.wrapperValue.value, k), ev.Interface()))
+//@ ensures found: result ==> exists(k, 0, max(0, pl_len(av.wrapperValue.value)), values.Equal(pl_elem(av.wrapperValue.value, k), ev.Interface()))
+//@ ensures notFound: !result ==> forall(k, 0, pl_len(av.wrapperValue.value), !values.Equal(pl_elem(av.wrapperValue.value, k), ev.Interface()))
 //@ func (values.mapValue).Contains
 //@ props C01 C09
 //@ panics nothing
